@@ -264,6 +264,7 @@ func (m *Manager) onError(err error) {
 }
 
 func (m *Manager) Open() {
+	m.allowConnection()
 	go m.open()
 }
 
